@@ -201,7 +201,9 @@ func (e *Env) child() *Env {
 }
 
 func (e *Env) fail(format string, a ...interface{}) T {
-	e.errs = append(e.errs, fmt.Sprintf(format, a...))
+	if len(e.errs) == 0 {
+		e.errs = append(e.errs, fmt.Sprintf(format, a...))
+	}
 	return T{S: "false", So: SBool}
 }
 
